@@ -22,6 +22,7 @@ EXPLANATION = (
     "with addBoth after the handle was assigned; the expiry closure assigns a Failure(RequestTimedOutError) that the "
     "on-both handler returns in place of the result; makeRequest has one caller."
 )
+SHARED = [('C10', ['R1', 'R4'], 'after the silent connection is dropped the unanswered requests are re-sent on one new connection')]
 ASSUMPTIONS = ["reactor.callLater fires once after the delay unless cancelled", "Deferred.addTimeout cancels after the delay"]
 KC = "client:KafkaClient"
 
